@@ -467,14 +467,13 @@ func runC16(c *Ctx) {
 	} else {
 		key := pkg + ".WorkerPool.Shutdown"
 		fd := p.FuncDecl(pkg, "WorkerPool", "Shutdown")
-		clears := f.Find(func(n ast.Node) bool {
-			as, ok := n.(*ast.AssignStmt)
-			return ok && len(as.Lhs) == 1 && fieldSel(info, as.Lhs[0], "isRunning") && exprKey(as.Rhs[0]) == "false"
-		})
+		// (the flag may be a plain bool under the mutex or an atomic.Bool: assignment, Store, or the
+		// success edge of CompareAndSwap(true, false))
+		clears := f.flagSetPoints("isRunning", "false")
 		if len(clears) != 1 {
 			r.Fail("shutdown/protocol", key, p.posStr(fd.Pos()), "Shutdown must clear isRunning exactly once")
 		} else {
-			if w, found := f.PathToExitAvoiding(clears[0], fieldCallN("Queue", "SignalShutdown")); found {
+			if w, found := f.reach(clears[0], &searchOpts{AvoidNode: fieldCallN("Queue", "SignalShutdown")}, func(_ Point, atExit bool) bool { return atExit }); found {
 				r.Fail("shutdown/protocol", key+" signals queue", f.PosOf(clears[0]), "after clearing the flag a path returns without waking the dispatcher", w...)
 			} else {
 				r.Pass("shutdown/protocol", key+" signals queue", f.PosOf(clears[0]), "Queue.SignalShutdown follows the flag flip on every path")
